@@ -762,10 +762,23 @@ public:
       dom_var_alloc_t palloc(left._alloc, right._alloc);
 
       // Build up the mapping of right onto left, variable by variable.
-      // Assumption: the set of variables in left & right are common.
       for (auto p : left._var_map) {
         if (!left._ttbl.map_leq(right._ttbl, left.term_of_var(p.first),
                                 right.term_of_var(p.first), gen_map))
+          return false;
+      }
+      // A variable that only the right operand mentions is
+      // unconstrained on the left: its (fresh) left term is mapped too
+      // so that what the right operand says about it is compared.
+      std::vector<variable_t> only_right;
+      for (auto p : right._var_map) {
+        if (left._var_map.find(p.first) == left._var_map.end()) {
+          only_right.push_back(p.first);
+        }
+      }
+      for (auto const &v : only_right) {
+        if (!left._ttbl.map_leq(right._ttbl, left.term_of_var(v),
+                                right.term_of_var(v), gen_map))
           return false;
       }
       // We now have a mapping of reachable y-terms to x-terms.
